@@ -567,6 +567,10 @@ func runC17(c *Ctx) {
 		})
 	}
 	c.Check(fname(rg)+"#refund-cap-and-same-gas", rg.Pos(), capOK && sameGas, ifelse(capOK && sameGas, "refund ≤ GasUsed()/2; sender and block pool get the same AvailableGas", fmt.Sprintf("refund discipline broken (cap=%v same-gas=%v)", capOK, sameGas)))
+	// ------------------------------------------------------------ T6
+	c.Rule("C17.T6", "NO-EFFECT-BEFORE", "a staking transaction that fails is charged its gas and nothing else: every registered staking handler (no snapshot surrounds them; a handler error marks the transaction failed but included) changes state only on its success tail — after the first state change (debit of the staked value, record, validator update) no error return is reachable. Shared with C09.J4")
+	c.Min(9)
+	stakingHandlersSuccessTail(c, w)
 }
 
 func paramNamed(fn *ssa.Function, name string) *ssa.Parameter {
